@@ -523,9 +523,11 @@ func (s *sut) project() tl.M {
 		idx[n], spent[n] = []meta{}, 0
 		nonce[n] = s.pool.Nonce(accts[n].addr)
 	}
+	lastPooled = map[string][]atx{}
 	for addr, ms := range vs.Index {
 		n := byAddr[addr].name
 		for _, m := range ms {
+			lastPooled[n] = append(lastPooled[n], abs(m.Hash))
 			if uint64(m.StorageSize)%unitSize != 0 {
 				tl.Fatal("storage size %d is not a multiple of the unit %d", m.StorageSize, unitSize)
 			}
@@ -623,14 +625,15 @@ func norm(b *ablock) *ablock {
 var (
 	seenStates = map[string]bool{}
 	traceNo    int
+	lastPooled = map[string][]atx{} // the index of the last projection (feedback for the generator)
 )
 
-// run executes one behaviour on a fresh pool in a fresh directory and writes its events.
-func run(tr *tl.Trace, root string, steps []step, sum *tl.Summary) int {
-	if len(steps) == 0 || steps[0].Act.Op != "init" {
+// run executes one behaviour on a fresh pool in a fresh directory and writes its events; next
+// yields the i-th operation (nil ends the behaviour) and may consult lastPooled.
+func run(tr *tl.Trace, root string, in act, next func(i int) *act, sum *tl.Summary) int {
+	if in.Op != "init" {
 		tl.Fatal("behaviour does not start with init")
 	}
-	in := steps[0].Act
 	norm(in.Genesis)
 	traceNo++
 	s := newSUT(filepath.Join(root, fmt.Sprintf("t%d", traceNo)), in.Cfg, in.Genesis, in.Tip)
@@ -638,8 +641,7 @@ func run(tr *tl.Trace, root string, steps []step, sum *tl.Summary) int {
 	tr.Emit(tl.M{"op": "init", "cfg": in.Cfg, "genesis": in.Genesis, "tip": in.Tip, "err": "ok", "state": s.project(),
 		"tx": 0, "id": 0, "block": 0, "final": 0, "disk": []int{}, "ldisk": []int{}})
 	n := 0
-	for i := range steps[1:] {
-		a := &steps[1+i].Act
+	for a := next(n); a != nil; a = next(n) {
 		norm(a.Block)
 		cls, extra := s.apply(a)
 		if len(cls) > 6 && cls[:6] == "other:" {
@@ -733,7 +735,13 @@ func runReplay(in, root, trace string, sum *tl.Summary) {
 				}
 			}
 		}
-		n := run(tr, root, b, sum)
+		b := b
+		n := run(tr, root, b[0].Act, func(i int) *act {
+			if 1+i >= len(b) {
+				return nil
+			}
+			return &b[1+i].Act
+		}, sum)
 		sum.Traces++
 		sum.Evaluations++
 		sum.Steps += n
@@ -763,13 +771,13 @@ func runRecord(root, trace string, seed int64, ntraces, nsteps int, sum *tl.Summ
 			gen.Nonce[n] = int64(r.Intn(3))
 			gen.Bal[n] = bals[r.Intn(len(bals))]
 		}
-		steps := []step{{Act: act{Op: "init", Cfg: cfg, Genesis: gen, Tip: 1}}}
-		// The generator mirrors what it needs to choose interesting operations: the block tree and a
-		// naive image of the pool (transactions it believes pooled); correctness never depends on it.
+		initAct := act{Op: "init", Cfg: cfg, Genesis: gen, Tip: 1}
+		// The generator keeps the block tree and reads the pool's current index from the last projection
+		// to choose interesting operations; correctness never depends on it.
 		blocks := map[int64]*ablock{0: gen}
 		head, final := int64(0), int64(0)
-		pooled := map[string][]atx{}   // believed index per account
-		known := map[string][]atx{}    // "acct/nonce" -> everything ever made
+		var sample []act
+		known := map[string][]atx{} // "acct/nonce" -> everything ever made
 		remember := func(a atx) { k := fmt.Sprintf("%s/%d", a.From, a.Nonce); known[k] = append(known[k], a) }
 		fresh := func(from string, nonce int64) atx {
 			for {
@@ -779,7 +787,11 @@ func runRecord(root, trace string, seed int64, ntraces, nsteps int, sum *tl.Summ
 				}
 			}
 		}
-		for i := 0; i < nsteps; i++ {
+		gen1 := func(i int) *act {
+			if i >= nsteps {
+				return nil
+			}
+			pooled := lastPooled
 			var a act
 			switch c := r.Intn(100); {
 			case c < 64:
@@ -815,12 +827,6 @@ func runRecord(root, trace string, seed int64, ntraces, nsteps int, sum *tl.Summ
 					}
 				}
 				remember(tx)
-				// naive image: assume success when it extends or replaces
-				if off := tx.Nonce - base; off >= 0 && off <= have {
-					if off == have {
-						pooled[from] = append(pooled[from], tx)
-					}
-				}
 				a = act{Op: "add", Tx: &tx}
 			case c < 83:
 				if len(blocks) > 1 && r.Intn(8) == 0 { // jump to an existing block
@@ -835,9 +841,6 @@ func runRecord(root, trace string, seed int64, ntraces, nsteps int, sum *tl.Summ
 						id := ids[r.Intn(len(ids))]
 						a = act{Op: "reset", ID: id, Block: blocks[id], Final: final}
 						head = id
-						for _, n := range acctNames {
-							pooled[n] = nil
-						}
 						break
 					}
 				}
@@ -879,11 +882,6 @@ func runRecord(root, trace string, seed int64, ntraces, nsteps int, sum *tl.Summ
 						bal = bals[r.Intn(len(bals))]
 					}
 					nb.Nonce[n], nb.Bal[n] = nonce, bal
-					if parent == head && k > 0 && k <= len(pooled[n]) {
-						pooled[n] = pooled[n][k:]
-					} else if k > 0 || parent != head {
-						pooled[n] = nil
-					}
 				}
 				id := int64(len(blocks))
 				blocks[id] = nb
@@ -899,15 +897,19 @@ func runRecord(root, trace string, seed int64, ntraces, nsteps int, sum *tl.Summ
 			default:
 				a = act{Op: "crash"}
 			}
-			steps = append(steps, step{Act: a})
+			if i == 0 || i == nsteps-1 {
+				sample = append(sample, a)
+			}
+			return &a
 		}
-		n := run(tr, root, steps, sum)
+		n := run(tr, root, initAct, gen1, sum)
 		sum.Traces++
 		sum.Evaluations++
 		sum.Steps += n
 		if t == 0 {
-			sum.Sample(steps[1].Act)
-			sum.Sample(steps[len(steps)-1].Act)
+			for _, a := range sample {
+				sum.Sample(a)
+			}
 		}
 	}
 	sum.Distinct = len(seenStates)
